@@ -1713,7 +1713,9 @@ class Dict(Opcode):
                 f"Number of keys ({len(keys)}) and values ({len(values)}) for DICT do not match"
             )
 
-        interpreter.stack.append(ast.Dict(keys=reversed(keys), values=reversed(values)))
+        interpreter.stack.append(
+            ast.Dict(keys=list(reversed(keys)), values=list(reversed(values)))
+        )
 
 
 if sys.version_info < (3, 9):
